@@ -171,6 +171,37 @@ def pat_s(p):
     return p.get('text', k)
 
 
+def pat_shape(p):
+    """pattern text with binder names erased (`Some(x)` -> `Some(_)`): the canonical pattern of value terms, so that renaming a
+    pattern variable does not change a term"""
+    if p is None:
+        return '_'
+    k = p['k']
+    if k == 'Ident':
+        if p.get('sub'):
+            return pat_shape(p['sub'])
+        n = p['name']
+        return n if (n[:1].isupper()) else '_'
+    if k == 'Tuple':
+        return '(' + ', '.join(pat_shape(e) for e in p['elems']) + ')'
+    if k == 'TupleStruct':
+        return path_s(p['path']) + '(' + ', '.join(pat_shape(e) for e in p['elems']) + ')'
+    if k == 'Struct':
+        fs = []
+        for f in p['fields']:
+            fs.append('%s: %s' % (f['member'], pat_shape(f['pat'])))
+        if p['rest']:
+            fs.append('..')
+        return path_s(p['path']) + ' { ' + ', '.join(fs) + ' }'
+    if k == 'Or':
+        return ' | '.join(pat_shape(c) for c in p['cases'])
+    if k == 'Ref':
+        return pat_shape(p['pat'])
+    if k == 'Type':
+        return pat_shape(p['pat'])
+    return pat_s(p)
+
+
 def toks_s(ts):
     """render a token list (template or macro body) to source text that re-lexes identically."""
     out = []
